@@ -400,6 +400,8 @@ type ledgerWorld struct {
 	rewardTried      bool     // the nst-reward-withdraw sub-scenario was injected in this history
 	extraHolds       []string // record keys on which a second AVS (emulated) currently holds one more count
 	nstMode          bool     // history with native-restaking balance adjustments (UpdateNSTBalance), replayed by the model like every other op
+	betweenTried     bool     // the slash-between-records sub-scenario was injected in this history (dom_ledger_slashrecs.go)
+	forceBetween     bool     // the current (scripted) slash takes its infraction height from the operator's pending records
 }
 
 func (w *ledgerWorld) emit(op, obs string) {
@@ -791,12 +793,19 @@ func (w *ledgerWorld) step(prev *ledgerSnap, kinds map[string]int) *ledgerSnap {
 			forcedOp{9, fs, fai, opA, int64([]int{5, 6, 9}[r.Intn(3)])}, forcedOp{9, fs, fai, opA, int64([]int{5, 9, 10, 7}[r.Intn(4)])})
 		w.env.Outcome("scenario.nst-multi-record")
 	}
+	if !w.huge && !w.betweenTried && len(w.forced) == 0 && r.Chance(1, 25) {
+		// directed sub-scenario (dom_ledger_slashrecs.go): two undelegations from one validator at different
+		// heights, then a slash whose infraction height separates them
+		w.betweenTried = true
+		w.forced = append(w.forced, w.scenarioSlashBetweenRecords(prev)...)
+	}
 	if len(w.forced) > 0 {
 		f := w.forced[0]
 		w.forced = w.forced[1:]
 		native = false
 		op, forcedKind, forcedAmt = f.op, f.kind, f.amt
 		w.forceTargeted = f.kind == 7
+		w.forceBetween = f.kind == 7 && f.amt == 1
 		if f.ai < 0 { // scripted op on the native token
 			useNative(f.st)
 		} else {
@@ -806,7 +815,7 @@ func (w *ledgerWorld) step(prev *ledgerSnap, kinds map[string]int) *ledgerSnap {
 			lz, saddr, aaddr = c.LzID, st.Eth.Bytes(), w.assetAddr(ai)
 		}
 	} else {
-		w.forceTargeted = false
+		w.forceTargeted, w.forceBetween = false, false
 	}
 	if native {
 		useNative(w.nstakers[r.Intn(len(w.nstakers))])
@@ -1021,6 +1030,9 @@ func (w *ledgerWorld) step(prev *ledgerSnap, kinds map[string]int) *ledgerSnap {
 		})
 		finish("dissociate", "ledger.dissociate "+sid, err, nil)
 	case 7: // slash an operator through the real operator keeper
+		if forcedKind < 0 {
+			op = w.slashTarget(prev, op)
+		}
 		after = w.slash(prev, op)
 	default:
 		after = w.blocks(prev, kinds, 1+r.Intn(4))
@@ -1142,7 +1154,14 @@ func (w *ledgerWorld) slash(prev *ledgerSnap, op sdk.AccAddress) *ledgerSnap {
 	// interface on the block context (an error inside is only logged; nothing is rolled back by a
 	// caller). The slash id is derived from (infraction type, infraction height).
 	infr := stakingtypes.Infraction(1 + r.Intn(2))
-	if w.lastSlash != nil && r.Chance(1, 3) { // present an earlier slash event again
+	// boundary-biased infraction height: one that separates / coincides with the start heights of the
+	// operator's pending records (dom_ledger_slashrecs.go)
+	if inf, ok := w.infractionAmongRecords(prev, op, h, w.forceBetween); ok {
+		infraction = inf
+	}
+	if w.forceBetween { // scripted: a slash id not presented before
+		infr = w.freshInfraction(op, infraction, infr)
+	} else if w.lastSlash != nil && r.Chance(1, 3) { // present an earlier slash event again
 		op, infraction, infr = w.lastSlash.op, w.lastSlash.infraction, w.lastSlash.infr
 	} else if w.lastSlash != nil && r.Chance(1, 3) { // a second, different event hitting the same records
 		op, infraction = w.lastSlash.op, w.lastSlash.infraction
@@ -1230,6 +1249,8 @@ func (w *ledgerWorld) slash(prev *ledgerSnap, op sdk.AccAddress) *ledgerSnap {
 		// a slash for an operator that has stake must be executed (C04): the only legitimate refusal is
 		// the operator without any value
 		w.env.Eval("C04.refused")
+		// the refused slash is not an op of the model's stream (nothing happened); a violation's history names it
+		hist := append(append([]string(nil), w.hist...), fmt.Sprintf("ledger.slash-refused %s %d power=%d factor=%s infraction-type=%d", op, infraction, power, factor, infr))
 		hasStake, hasNativePool := false, false
 		for k, p := range prev.pools {
 			if strings.HasPrefix(k, op.String()+"/") {
@@ -1243,13 +1264,13 @@ func (w *ledgerWorld) slash(prev *ledgerSnap, op sdk.AccAddress) *ledgerSnap {
 		}
 		if hasStake {
 			if hasNativePool {
-				w.env.Violate("C04.refused", "F-04c:native-pool-blocks-slash", fmt.Sprintf("slash %s of %s refused although the operator has stake: it has a native-token pool and the native token is not a registered staking asset", slashID, op), w.hist)
+				w.env.Violate("C04.refused", "F-04c:native-pool-blocks-slash", fmt.Sprintf("slash %s of %s refused although the operator has stake: it has a native-token pool and the native token is not a registered staking asset", slashID, op), hist)
 			} else {
-				w.env.Violate("C04.refused", "slash-refused-with-stake", fmt.Sprintf("slash %s of %s refused although the operator has stake", slashID, op), w.hist)
+				w.env.Violate("C04.refused", "slash-refused-with-stake", fmt.Sprintf("slash %s of %s refused although the operator has stake", slashID, op), hist)
 			}
 		}
 		if after.dump() != prev.dump() {
-			w.env.Violate("C04.slash", "slash-effect-without-record", fmt.Sprintf("slash %s of %s changed the ledger but recorded no execution info: %v", slashID, op, ierr), w.hist)
+			w.env.Violate("C04.slash", "slash-effect-without-record", fmt.Sprintf("slash %s of %s changed the ledger but recorded no execution info: %v", slashID, op, ierr), hist)
 		}
 		w.emit("ledger.dump", "ok "+after.dump())
 		return after
